@@ -8,14 +8,21 @@ import (
 	"fmt"
 	"testing"
 
+	"github.com/cloudflare/circl/blindsign/blindrsa"
+	"github.com/cloudflare/circl/blindsign/blindrsa/partiallyblindrsa"
 	"github.com/cloudflare/circl/cipher/ascon"
 	"github.com/cloudflare/circl/expander"
 	"github.com/cloudflare/circl/group"
 	"github.com/cloudflare/circl/hpke"
 	"github.com/cloudflare/circl/kem/mlkem/mlkem768"
+	"github.com/cloudflare/circl/oprf"
+	"github.com/cloudflare/circl/sign"
+	"github.com/cloudflare/circl/sign/bls"
 	"github.com/cloudflare/circl/sign/ed25519"
 	"github.com/cloudflare/circl/sign/ed448"
+	signschemes "github.com/cloudflare/circl/sign/schemes"
 	"github.com/cloudflare/circl/xof"
+	"github.com/cloudflare/circl/xof/k12"
 	"github.com/cloudflare/circl/zz_verif/vlib"
 	"pgregory.net/rapid"
 )
@@ -25,9 +32,10 @@ import (
 // its arguments only: afterwards the whole arena must be unchanged, and the result must equal the
 // result of the same call on private exact-capacity copies.
 type arena struct {
-	buf  []byte
-	orig []byte
-	off  int
+	buf     []byte
+	orig    []byte
+	off     int
+	damaged bool
 }
 
 func newArena(t *rapid.T, n int) *arena {
@@ -37,14 +45,21 @@ func newArena(t *rapid.T, n int) *arena {
 }
 
 func (a *arena) take(content []byte) []byte {
+	if a.orig == nil {
+		a.freeze()
+	}
+	if !bytes.Equal(a.buf, a.orig) {
+		a.damaged = true // a previous call wrote outside what it was allowed to: remember it before handing out more
+	}
 	copy(a.buf[a.off:], content)
+	copy(a.orig[a.off:], content)          // only the bytes handed out now change in the snapshot: earlier damage stays visible
 	s := a.buf[a.off : a.off+len(content)] // cap extends to the end of the arena
-	a.off += len(content)
+	a.off += len(content) + 8              // guard bytes between arguments: an append to s lands there
 	return s
 }
 
 func (a *arena) freeze()      { a.orig = append([]byte{}, a.buf...) }
-func (a *arena) intact() bool { return bytes.Equal(a.buf, a.orig) }
+func (a *arena) intact() bool { return !a.damaged && bytes.Equal(a.buf, a.orig) }
 
 // TestC11SeqArgs: results depend only on the explicit arguments and arguments are not written.
 func TestC11SeqArgs(t *testing.T) {
@@ -156,36 +171,173 @@ func TestC11SeqArgs(t *testing.T) {
 			return fmt.Sprintf("%x%x%v", ct, pt2, err)
 		}},
 	)
-	sub := "seq/args"
-	vlib.Check(t, vlib.N(400, 4000), func(t *rapid.T) {
-		c := calls[rapid.IntRange(0, len(calls)-1).Draw(t, "call")]
-		// the same drawn contents are needed twice: record them in the first pass
-		var contents [][]byte
-		a := newArena(t, 4096)
-		a.freeze()
-		first := true
-		var got string
-		getArena := func(b []byte) []byte {
-			contents = append(contents, append([]byte{}, b...))
-			s := a.take(b)
-			a.freeze()
-			_ = first
-			return s
-		}
-		if p, st := vlib.Catch(func() { got = c.run(getArena, t) }); p != nil {
-			vlib.Report(t, "C11/args/"+c.name+"/panic", fmt.Sprintf("%v\n%s", p, st))
-			return
-		}
-		vlib.Eval(sub)
-		if !a.intact() {
-			i := 0
-			for i < len(a.buf) && a.buf[i] == a.orig[i] {
-				i++
+	// every signature and KEM scheme through the generic API
+	for _, sc := range signschemes.All() {
+		sc := sc
+		calls = append(calls, call{"sign/" + sc.Name(), func(get func([]byte) []byte, t *rapid.T) string {
+			seed := get(vlib.Bytes(t, sc.SeedSize(), sc.SeedSize(), "seed"))
+			msg := get(vlib.Bytes(t, 0, 40, "msg"))
+			var opts *sign.SignatureOpts
+			if sc.SupportsContext() {
+				opts = &sign.SignatureOpts{Context: string(vlib.Bytes(t, 0, 20, "ctx"))}
 			}
-			vlib.Report(t, "C11/args/"+c.name+"/writes-to-caller-memory", fmt.Sprintf("the call changed byte %d of the buffer its arguments were sliced from (%d bytes of arguments)", i, a.off))
-			return
-		}
-		vlib.NonTrivial(sub, "call="+c.name, []byte(c.name), bytes.Join(contents, []byte{0}))
-		vlib.Sample(sub, c.name, fmt.Sprintf("%s with %d byte arguments carved from one 4096-byte arena → %.60s", c.name, len(contents), got))
-	})
+			pk, sk := sc.DeriveKey(seed)
+			sig := sc.Sign(sk, msg, opts)
+			sigA := get(sig)
+			pkb := get(mb(pk.MarshalBinary()))
+			pk2, err := sc.UnmarshalBinaryPublicKey(pkb)
+			if err != nil {
+				return err.Error()
+			}
+			return fmt.Sprintf("%x %v", vlib.Hash64(sig), sc.Verify(pk2, msg, sigA, opts))
+		}})
+	}
+	for _, ks := range allKEMs() {
+		ks := ks
+		calls = append(calls, call{"kem/" + ks.Name(), func(get func([]byte) []byte, t *rapid.T) string {
+			seed := get(vlib.Bytes(t, ks.SeedSize(), ks.SeedSize(), "seed"))
+			eseed := get(vlib.Bytes(t, ks.EncapsulationSeedSize(), ks.EncapsulationSeedSize(), "eseed"))
+			pk, sk := ks.DeriveKeyPair(seed)
+			ct, ss, err := ks.EncapsulateDeterministically(pk, eseed)
+			if err != nil {
+				return err.Error()
+			}
+			ctA := get(ct)
+			ss2, err := ks.Decapsulate(sk, ctA)
+			skb := get(mb(sk.MarshalBinary()))
+			sk2, err2 := ks.UnmarshalBinaryPrivateKey(skb)
+			if err2 != nil {
+				return err2.Error()
+			}
+			ss3, _ := ks.Decapsulate(sk2, ctA)
+			return fmt.Sprintf("%x %x %x %v", ss, ss2, ss3, err)
+		}})
+	}
+	rsaKeys := loadRSAKeys()
+	calls = append(calls,
+		call{"partiallyblindrsa", func(get func([]byte) []byte, t *rapid.T) string {
+			// client side only (the pool has no safe-prime key for a Signer): Blind and Verify derive the
+			// per-metadata public key from the caller's metadata
+			key := rsaKeys[0]
+			v := partiallyblindrsa.NewVerifier(&key.PublicKey, crypto.SHA384)
+			msg := get(vlib.Bytes(t, 0, 40, "msg"))
+			md := get(vlib.Bytes(t, 0, 40, "metadata"))
+			bm, _, err := v.Blind(vlib.DrawReader(t, "rd"), msg, md)
+			if err != nil {
+				return err.Error()
+			}
+			sig := get(make([]byte, (key.N.BitLen()+7)/8))
+			return fmt.Sprintf("%d %v", len(bm), v.Verify(msg, md, sig) != nil)
+		}},
+		call{"blindrsa", func(get func([]byte) []byte, t *rapid.T) string {
+			key := rsaKeys[0]
+			c, err := blindrsa.NewClient(blindrsa.SHA384PSSRandomized, &key.PublicKey)
+			if err != nil {
+				return err.Error()
+			}
+			msg := get(vlib.Bytes(t, 0, 40, "msg"))
+			rd := vlib.DrawReader(t, "rd")
+			pm, err := c.Prepare(rd, msg)
+			if err != nil {
+				return err.Error()
+			}
+			pmA := get(pm)
+			bm, st, err := c.Blind(rd, pmA)
+			if err != nil {
+				return err.Error()
+			}
+			bs, err := blindrsa.NewSigner(key).BlindSign(get(bm))
+			if err != nil {
+				return err.Error()
+			}
+			sig, err := c.Finalize(st, get(bs))
+			if err != nil {
+				return err.Error()
+			}
+			return fmt.Sprint(c.Verify(pmA, get(sig)))
+		}},
+		call{"oprf.POPRF", func(get func([]byte) []byte, t *rapid.T) string {
+			su := oprf.SuiteP256
+			sk, err := oprf.DeriveKey(su, oprf.PartialObliviousMode, get(vlib.Bytes(t, 32, 32, "seed")), get(vlib.Bytes(t, 0, 20, "kinfo")))
+			if err != nil {
+				return err.Error()
+			}
+			srv := oprf.NewPartialObliviousServer(su, sk)
+			cl := oprf.NewPartialObliviousClient(su, srv.PublicKey())
+			in := get(vlib.Bytes(t, 1, 30, "input"))
+			info := get(vlib.Bytes(t, 0, 30, "info"))
+			fd, req, err := cl.Blind([][]byte{in})
+			if err != nil {
+				return err.Error()
+			}
+			ev, err := srv.Evaluate(req, info)
+			if err != nil {
+				return err.Error()
+			}
+			out, err := cl.Finalize(fd, ev, info)
+			if err != nil {
+				return err.Error()
+			}
+			full, _ := srv.FullEvaluate(in, info)
+			return fmt.Sprint(bytes.Equal(out[0], full), srv.VerifyFinalize(in, info, get(out[0])))
+		}},
+		call{"bls", func(get func([]byte) []byte, t *rapid.T) string {
+			sk, err := bls.KeyGen[bls.G1](get(vlib.Bytes(t, 32, 40, "ikm")), get(vlib.Bytes(t, 0, 20, "salt")), get(vlib.Bytes(t, 0, 20, "info")))
+			if err != nil {
+				return err.Error()
+			}
+			msg := get(vlib.Bytes(t, 0, 40, "msg"))
+			sig := bls.Sign(sk, msg)
+			return fmt.Sprintf("%x %v", vlib.Hash64(sig), bls.Verify(sk.PublicKey(), msg, get(sig)))
+		}},
+		call{"k12+xof", func(get func([]byte) []byte, t *rapid.T) string {
+			msg := get(vlib.Bytes(t, 0, 300, "msg"))
+			cst := get(vlib.Bytes(t, 0, 40, "custom"))
+			o := make([]byte, 32)
+			k12.Draft10Sum(o, msg, cst)
+			out := fmt.Sprintf("%x", o)
+			for _, id := range []xof.ID{xof.SHAKE128, xof.SHAKE256, xof.BLAKE2XB, xof.BLAKE2XS, xof.K12D10} {
+				x := id.New()
+				_, _ = x.Write(msg)
+				_, _ = x.Read(o)
+				out += fmt.Sprintf("%x", o[:8])
+			}
+			return out
+		}},
+	)
+	sub := "seq/args"
+	for _, c := range calls {
+		c := c
+		t.Run(c.name, func(t *testing.T) {
+			vlib.Check(t, vlib.N(6, 60), func(t *rapid.T) {
+				// the same drawn contents are needed twice: record them in the first pass
+				var contents [][]byte
+				a := newArena(t, 1<<16)
+				a.freeze()
+				first := true
+				var got string
+				getArena := func(b []byte) []byte {
+					contents = append(contents, append([]byte{}, b...))
+					s := a.take(b)
+					_ = first
+					return s
+				}
+				if p, st := vlib.Catch(func() { got = c.run(getArena, t) }); p != nil {
+					vlib.Report(t, "C11/args/"+c.name+"/panic", fmt.Sprintf("%v\n%s", p, st))
+					return
+				}
+				vlib.Eval(sub)
+				if !a.intact() {
+					i := 0
+					for i < len(a.buf) && a.buf[i] == a.orig[i] {
+						i++
+					}
+					vlib.Report(t, "C11/args/"+c.name+"/writes-to-caller-memory", fmt.Sprintf("the call changed byte %d of the buffer its arguments were sliced from (%d bytes of arguments)", i, a.off))
+					return
+				}
+				vlib.NonTrivial(sub, "call="+c.name, []byte(c.name), bytes.Join(contents, []byte{0}))
+				vlib.Sample(sub, c.name, fmt.Sprintf("%s with %d byte arguments carved from one 64 KiB arena → %.60s", c.name, len(contents), got))
+			})
+		})
+	}
 }
